@@ -207,3 +207,15 @@ func (s *Sim) checkValidatorUpdates(b *blockObs, res *BlockResult) {
 		s.res.Probe("max_validators_below_eligible")
 	}
 }
+
+type nodesVal = nodesTypes.Validator
+
+func countApps(v *View, st sdk.StakeStatus) int {
+	n := 0
+	for _, a := range v.Apps {
+		if a.Status == st {
+			n++
+		}
+	}
+	return n
+}
